@@ -60,10 +60,16 @@ impl Shape {
     }
 
     pub(crate) fn strides(&self) -> Strides {
-        let mut strides = vec![1; self.len()];
+        let mut strides = vec![1usize; self.len()];
 
+        // A stride is the product of the trailing axis lengths. With an axis of length zero
+        // elsewhere, that product can overflow although the array holds no elements at all
+        // (and its strides are never used), so saturate rather than overflow
         for (i, v) in self.iter().enumerate().skip(1).rev() {
-            strides.iter_mut().take(i).for_each(|stride| *stride *= v)
+            strides
+                .iter_mut()
+                .take(i)
+                .for_each(|stride| *stride = stride.saturating_mul(*v))
         }
 
         Strides(strides)
